@@ -69,7 +69,16 @@ def check_vectors(chk, tu):
                            % (sizes_imp, st.get('size', (None, None))[1], n), site + ':size')
                 ptrs, buf = unk('ptrs', 'unsigned int'), unk('buf', 'unsigned int')
                 strs, paths = vec_paths(tu, eps[get_imp][gen]['name'], range(n), is_env, [unk('instance'), ptrs, buf])
-                chk.require(len(paths) == 1, '%s has %d paths' % (get_imp, len(paths)))
+                if len(paths) != 1:
+                    # the copy forks on a property of the strings (their length, say): not the single-path idiom - decided on the bytes
+                    # that reach guest memory for concrete vectors (empty strings included), in guest memory that is not zero beforehand
+                    bad = concrete_vector(tu, eps[get_imp][gen]['name'], is_env, n)
+                    if bad:
+                        chk.fail('R15.1', inst + ':copy', '%s (%d paths, not the strlen+memcpy shape) on a concrete vector: %s' % (get_imp, len(paths), bad),
+                                 get_imp + ':copy')
+                    else:
+                        chk.undecide('%s has %d paths for a vector of %d symbolic strings; on concrete vectors the guest bytes are right' % (get_imp, len(paths), n))
+                    continue
                 p = paths[0]
                 copies = [a for nm, a, l in p.events if nm == 'extern:memcpy']
                 stores = [a for nm, a, l in p.events if nm == 'gstore']
